@@ -25,6 +25,10 @@ def gen_source(rng, idx):
     """returns (source, spec) — spec describes what is in the module"""
     header = rng.choice(["", '"""Module docstring."""\n', "# a leading comment\n", "from __future__ import annotations\n",
                          '"""Doc."""\nfrom __future__ import annotations\n'])
+    if idx % 3 == 2:
+        # the sources that get an import-free stub (see traces_for(plain=True)): no `from __future__` of their own, so that the
+        # one `--pep_563` has to add is visible
+        header = rng.choice(["", '"""Module docstring."""\n', "# a leading comment\n"])
     picks = [c for c in IMPORT_CHOICES if rng.random() < 0.5]
     imports = "".join(p[0] for p in picks)
     uses = [p[1] for p in picks if p[1]]
@@ -70,6 +74,8 @@ def gen_source(rng, idx):
         "    from typing import TYPE_CHECKING\n    if TYPE_CHECKING:\n        pass\n" if nested_tc else ""))
     # an existing annotation that MonkeyType renders differently in a replicating stub (Optional[...] for a None default)
     qty = rng.choice(["qty: int = 1", "qty: int = None", "qty: 'int' = 1"])
+    if idx % 3 == 2:
+        qty = "qty: int = 1"           # no None default: the replicating stub needs no `Optional`, hence no import at all
     body.append("class Shop:\n    rate = 2\n\n    def price(self, item, %s):\n        \"\"\"Doc.\"\"\"\n        return self.rate * qty\n\n" % qty +
                 "    @staticmethod\n    def util(x):\n        return [x]\n\n")
     body.append("def run():\n    out = [area(make(1)[0]), config({'b': 1, 'a': 2}), Shop().price('x', 2), Shop.util(1)]\n"
